@@ -17,6 +17,11 @@ func FormatPacketDsl(dsl string) (string, error) {
 	listener := NewSyntaxErrorListener()
 	parser.RemoveErrorListeners()
 	parser.AddErrorListener(listener)
+	// characters the lexer cannot tokenize are syntax errors too
+	if lexer, ok := stream.GetTokenSource().(*gen.PacketDslLexer); ok {
+		lexer.RemoveErrorListeners()
+		lexer.AddErrorListener(listener)
+	}
 	// parese the file
 	tree := parser.Packet()
 	if listener.HasErrors() {
